@@ -1,10 +1,16 @@
 (* C11 — DataFrame import is faithful to labels under every supported layout.  Statements only.
-   PARTIAL: the theorems are about logical rows (one label per dimension and a value); how pandas
-   presents a layout (index / columns, names / letters / items, wide form, CSV text) is runtime
-   and tied to the row level by the correspondence on every layout. *)
-From Coq Require Import List Arith Bool.
+   Two layers: (1) logical rows (one label per dimension and a value): export, import, round trip;
+   (2) the table as pandas holds it (index levels, column labels, cells) and the converter's layout recognition
+   (Model/Detect.v: which index levels become columns, columns found by name / letter / items, long or wide,
+   melting, one-item dimensions, type conversion), tied to from_df by the correspondence on every layout and
+   every faulty table of C11 / C12.  Proved on layer 2: the table that to_df(index=False) produces is always
+   recognised and read back into the identical array (C11_to_df_table_is_read_back); before the repair that was
+   false (C11_value_column_taken_for_dimension_before_fix).  Wide / index layouts, CSV text and the remaining
+   recognition paths are decided per layout by the correspondence. *)
+From Coq Require Import List Arith Bool ZArith QArith Qcanon.
 Import ListNotations.
-From Flodym Require Import Base.ND Np.Einsum Model.Dims Model.Array Model.DF Proofs.DFProofs.
+Local Open Scope nat_scope.
+From Flodym Require Import Base.ND Np.Einsum Model.Dims Model.Array Model.Instances Model.DF Model.Detect Proofs.DFProofs Proofs.DetectProofs.
 
 (* to_df: one row per entry, in row-major order, each under its true labels; sparse: exactly the non-zero ones *)
 Theorem C11_to_df_lists_every_entry_once_under_its_labels :
@@ -30,3 +36,37 @@ Theorem C11_placement_writes_each_position_once :
   fold_left (fun acc idx => Index.upd R acc (ravel sh idx) (f idx)) (all_idx sh) v = tab sh f.
 Proof. exact fold_upd_all_idx. Qed.
 Print Assumptions C11_placement_writes_each_position_once.
+
+(* layer 2: the table of to_df(index=False) — one column per dimension labelled by its name, one value column —
+   goes through the converter's layout recognition and comes back as the identical array, for all values *)
+Theorem C11_to_df_table_is_read_back :
+  forall (tds : list tdim) (vlab : ent) (venc : Qc -> ent) (a : fQ) (lo hi : Z),
+  labels_ok tds vlab venc -> adims a = map td tds ->
+  items_unique (map td tds) -> length (avals a) = size (dshape (map td tds)) ->
+  convert true lo hi tds false false (long_table tds vlab venc a) = OValues (avals a).
+Proof. exact detect_roundtrip_long. Qed.
+Print Assumptions C11_to_df_table_is_read_back.
+
+(* the genuine defect repaired by 683c446: counts 0, 1, 2 over the ages 0, 1, 2 *)
+Theorem C11_value_column_taken_for_dimension_before_fix :
+  convert false 1700%Z 2300%Z [ex_age] false false (long_table [ex_age] ex_vlab ex_venc ex_array) = ORefused
+  /\ convert true 1700%Z 2300%Z [ex_age] false false (long_table [ex_age] ex_vlab ex_venc ex_array) = OValues (avals ex_array).
+Proof. exact value_column_taken_for_dimension_before_fix. Qed.
+Print Assumptions C11_value_column_taken_for_dimension_before_fix.
+
+(* non-vacuity of labels_ok: time (int) x region (text), labels "time"=20 "region"=21 "t"=22 "r"=23 "value"=24 *)
+Example ex_C11_labels_ok :
+  labels_ok [mk_tdim (mk_dim 116 0 [2000; 2005]) 20 22 TInt; mk_tdim (mk_dim 114 1 [30; 31; 32]) 21 23 TStr]
+            (mk_ent 24 None 24 VBad) (fun q => mk_ent 99 None 99 (VNum q)).
+Proof.
+  constructor.
+  - simpl. repeat constructor; simpl; intuition discriminate.
+  - intros d d' [<-|[<-|[]]] [<-|[<-|[]]]; simpl; discriminate.
+  - intros d d' [<-|[<-|[]]] [<-|[<-|[]]]; simpl; intuition discriminate.
+  - intros d [<-|[<-|[]]]; simpl; discriminate.
+  - intros d [<-|[<-|[]]]; simpl; discriminate.
+  - intros d [<-|[<-|[]]]; reflexivity.
+  - intros d es [<-|[<-|[]]]; unfold same_items; simpl; [reflexivity|].
+    destruct (all_some (map (coerce TStr) es)); reflexivity.
+  - reflexivity.
+Qed.
